@@ -10,6 +10,7 @@ R06.2 who may write the cache slots: only the two get functions (and Default) st
       solvers read other slots only through get (so a missing lower-k entry is computed on demand instead of being read as
       empty).
 R06.4 the cache arrays have MAX_K + 1 slots (k ranges over 0 ..= MAX_K).
+R06.5 decidable validates its lookahead limit against MAX_K before the first cache access.
 R06.3 the fixpoint loops of first_k / follow_k are left only on an equality test of the complete old and new state.
 """
 from ..dataflow import raw_operand_place, raw_place, single_def
@@ -102,6 +103,7 @@ def check(ctx):
     ctx.require_floor("R06.1", "caches", len(CACHES), 2)
     whole_state_convergence(ctx, facts)
     cache_capacity(ctx, facts)
+    limit_validated(ctx, facts)
 
 
 # ------------------------------------------------------------------------------------------------------------------ R06.3
@@ -204,3 +206,49 @@ def cache_capacity(ctx, facts, rule="R06.4"):
                   "%s has %s slots but k ranges over 0 ..= MAX_K (%d): requesting the set for k = %d indexes past the array (panic)"
                   % (short(adt), n if n is not None else "an unevaluated number of (%s)" % ty[-40:], max_k, max_k), 
                   "crates/parol/src/analysis/k_decision.rs", nontrivial=False)
+
+
+def limit_validated(ctx, facts, rule="R06.5"):
+    """R06.5 / R26.6 the k that indexes the caches is bounded by their capacity: decidable - the function through which the
+    pipeline requests the sets for k = 1 ..= max_k - compares its limit with the constant MAX_K and returns an error beyond it
+    before the first cache access (every block that calls FirstCache::get / FollowCache::get or builds a closure lies behind
+    the within-limit edge of that comparison).  Without it `parol export -k 11` indexes past the cache array (panic)."""
+    from .. import cfg
+    from .common import guards_on_all_paths
+    d = facts.body(KD + "decidable")
+    users = [c.bb for c in d.calls() if (c.path or "") in (KD + "FirstCache::get", KD + "FollowCache::get")]
+    for bi, si, p, rv, line, mac in d.assigns():
+        if rv[0] == "agg" and rv[1] == "closure":
+            users.append(bi)
+    if not users:
+        raise AnchorMissing("decidable: no cache access found")
+    bad = []
+    for u in sorted(set(users)):
+        ok = False
+        for a, k, truth in guards_on_all_paths(d, u):
+            if not k or k[0] != "bin" or k[1] not in ("Gt", "Ge", "Lt", "Le"):
+                continue
+            t = d.term(a)
+            dd = [x for x in d.defs(t[1][1][0]) if x[0] == "assign"] if t[1][0] in ("c", "m") else []
+            if not dd or dd[0][3][0] != "bin":
+                continue
+            ops = [dd[0][3][2], dd[0][3][3]]
+            consts = [o for o in ops if o[0] == "k" and (o[3] or "").endswith("MAX_K")]
+            params = [o for o in ops if o[0] in ("c", "m") and 1 <= (raw_operand_place(d, o) or [0])[0] <= d.nargs]
+            if not consts or not params:
+                continue
+            # param <op> MAX_K (or mirrored); the user block must lie on the `param <= MAX_K` side
+            left_is_param = ops[0] in params
+            op = k[1]
+            if not left_is_param:
+                op = {"Gt": "Lt", "Lt": "Gt", "Ge": "Le", "Le": "Ge"}[op]
+            within = (op in ("Gt",) and not truth) or (op in ("Le",) and truth) or (op == "Ge" and not truth) or (op == "Lt" and truth)
+            if within:
+                ok = True
+        if not ok:
+            bad.append(d.line_of_block(u))
+    ctx.check(not bad, rule, "decidable|limit-validated-before-cache-access",
+              "every cache access of decidable lies behind `max_k <= MAX_K`",
+              "decidable reaches the per-k caches (lines %s) without having compared its lookahead limit with MAX_K: a limit above "
+              "MAX_K (e.g. `parol export -k 11`) indexes past the cache arrays - a panic instead of an error" % sorted(set(bad)),
+              where(d))
